@@ -66,7 +66,9 @@ type sim struct {
 	v2active     uint32 // simulated DPoS v2 activation height (0: never)
 	frozen       int    // actor whose address is frozen (-1: none)
 	frozenHeight uint32
-	ccFreeze     uint32 // cross-chain UTXO freeze height (0: policy disabled)
+	frozen2      int // a second frozen address with its own start height (-1: none)
+	frozenHeight2 uint32
+	ccFreeze    uint32 // cross-chain UTXO freeze height (0: policy disabled)
 	ccRestrict   uint32 // cross-chain UTXO restriction height
 }
 
